@@ -18,10 +18,13 @@ HOSTS = {
     "h_bytes.rs": [("bytes.rs", "vk_bytes", "bytes::vk_bytes")],
     "h_unsync.rs": [("unsync.rs", "vk_unsync", "unsync::vk_unsync")],
     "h_sync.rs": [("sync.rs", "vk_sync", "sync::vk_sync")],
+    "h_mm.rs": [("lib.rs", "vk_mm", "vk_mm")],
     "h_arena.rs": [("sync.rs", "vk_arena", "sync::vk_arena"), ("unsync.rs", "vk_arena", "unsync::vk_arena")],
 }
 
 FEATURES = ["--no-default-features", "--features", "alloc"]
+FEATURES_BY = {"alloc": FEATURES, "memmap": ["--features", "memmap"]}
+HOST_CFG = {"h_mm.rs": 'all(kani, feature = "memmap")'}
 
 ANNOT = re.compile(r"^\s*//\s*@h\s+(.*)$")
 FN = re.compile(r"^\s*(?:pub(?:\([a-z]+\))?\s+)?fn\s+([A-Za-z0-9_]+)\s*\(")
@@ -46,6 +49,7 @@ class Harness:
         self.seedgrp = attrs.get("seedgrp", None)
         self.unwind = unwind
         self.role = attrs.get("role", name)
+        self.feat = attrs.get("feat", "alloc")
 
     def in_tier(self, pid, tier):
         if pid not in self.props:
@@ -105,7 +109,7 @@ def overlay(repo_copy):
             continue
         for (host, modname, _) in hosts:
             with open(os.path.join(src, host), "a") as fh:
-                fh.write('\n#[cfg(kani)]\n#[path = "vk/%s"]\npub(crate) mod %s;\n' % (fname, modname))
+                fh.write('\n#[cfg(%s)]\n#[path = "vk/%s"]\npub(crate) mod %s;\n' % (HOST_CFG.get(fname, "kani"), fname, modname))
 
 
 def build(repo_copy, logdir, harnesses=None):
@@ -114,7 +118,10 @@ def build(repo_copy, logdir, harnesses=None):
     crate = os.path.join(repo_copy, C.CRATE)
     t0 = time.time()
     sel = []
-    for h in harnesses or []:
+    harnesses = [h for h in (harnesses or []) if h.feat == "alloc"]
+    if not harnesses:
+        return True, "", 0.0
+    for h in harnesses:
         sel += ["--harness", h.name]
     if sel:
         sel.append("--exact")
@@ -158,9 +165,9 @@ def run_one(h, repo_copy, logdir, extra_args=None, mem_gb=None):
     main_target = os.path.join(repo_copy, "target")
     tdir = os.path.join(os.path.dirname(repo_copy), "t." + re.sub(r"[^A-Za-z0-9_]", "_", h.name))
     shutil.rmtree(tdir, ignore_errors=True)
-    if os.path.isdir(main_target):
+    if os.path.isdir(main_target) and h.feat == "alloc":
         subprocess.run(["cp", "-al", main_target, tdir], check=False)
-    cmd = ["cargo", "kani"] + FEATURES + ["--harness", h.name, "--exact", "--target-dir", tdir] + (extra_args or [])
+    cmd = ["cargo", "kani"] + FEATURES_BY[h.feat] + ["--harness", h.name, "--exact", "--target-dir", tdir] + (extra_args or [])
     shell = "ulimit -v %d; exec timeout -k 10 %d %s" % (mem_gb * 1024 * 1024, h.timeout, " ".join(cmd))
     t0 = time.time()
     p = subprocess.run(["bash", "-c", shell], cwd=crate, env=C.base_env(),
@@ -229,7 +236,7 @@ def playback(h, repo_copy, logdir):
     profile (what Kani models) and in release (what users run).
     Returns dict(test_src, dev_fails, release_fails, ...)."""
     crate = os.path.join(repo_copy, C.CRATE)
-    cmd = ["cargo", "kani"] + FEATURES + ["--harness", h.name, "--exact", "-Z", "concrete-playback",
+    cmd = ["cargo", "kani"] + FEATURES_BY[h.feat] + ["--harness", h.name, "--exact", "-Z", "concrete-playback",
                                           "--concrete-playback=print"]
     p = subprocess.run(["timeout", "-k", "10", str(h.timeout)] + cmd, cwd=crate, env=C.base_env(),
                        stdout=subprocess.PIPE, stderr=subprocess.STDOUT, text=True)
@@ -249,7 +256,7 @@ def playback(h, repo_copy, logdir):
             f.write("\n" + b + "\n")
     failing = {}
     for prof, key in ((None, "dev_fails"), ("--release", "release_fails")):
-        cmd = ["cargo", "kani", "playback", "-Z", "concrete-playback"] + FEATURES
+        cmd = ["cargo", "kani", "playback", "-Z", "concrete-playback"] + FEATURES_BY[h.feat]
         if prof:
             cmd.append(prof)
         cmd += ["--", "kani_concrete_playback_" + h.fn + "_"]
